@@ -35,3 +35,77 @@ func VerifC20_MergeErrorsIsolation() {
 	verifRaceFree("merge-errors")
 	verifAssert("errors-not-shared", e0 != nil && e1 != nil && *e0.(*ServiceError).Field == m0 && *e1.(*ServiceError).Field == m1)
 }
+
+// VerifC20_ValidationErrorConstructors: the validation error built for one
+// request is made of that request's arguments only, also when both requests
+// fail on a field of the same name.
+func VerifC20_ValidationErrorConstructors() {
+	kind := nondetChoice("kind", 5)
+	v0, v1 := nondetString("v0", 1), nondetString("v1", 1)
+	build := func(v string, second bool) error {
+		switch kind {
+		case 0:
+			if second {
+				return InvalidEnumValueError("status", v, []any{"c", "d", "e"})
+			}
+			return InvalidEnumValueError("status", v, []any{"a", "b"})
+		case 1:
+			if second {
+				return InvalidPatternError("status", v, "^q")
+			}
+			return InvalidPatternError("status", v, "^p")
+		case 2:
+			if second {
+				return InvalidRangeError("status", len(v), 7, false)
+			}
+			return InvalidRangeError("status", len(v), 3, true)
+		case 3:
+			if second {
+				return InvalidLengthError("status", v, len(v), 9, false)
+			}
+			return InvalidLengthError("status", v, len(v), 2, true)
+		default:
+			if second {
+				return InvalidFieldTypeError("status", v, "boolean")
+			}
+			return InvalidFieldTypeError("status", v, "integer")
+		}
+	}
+	if nondetBool("earlier-request") {
+		build("z", nondetBool("earlier-is-second-kind"))
+	}
+	var e0, e1 error
+	verifConcurrently(
+		func() { e0 = build(v0, false) },
+		func() { e1 = build(v1, true) },
+	)
+	verifRaceFree("validation-error-constructors")
+	s0, ok0 := e0.(*ServiceError)
+	s1, ok1 := e1.(*ServiceError)
+	verifAssert("errors-built", ok0 && ok1)
+	if !ok0 || !ok1 {
+		return
+	}
+	has := func(s, sub string) bool {
+		for i := 0; i+len(sub) <= len(s); i++ {
+			if s[i:i+len(sub)] == sub {
+				return true
+			}
+		}
+		return false
+	}
+	var own0, own1 string
+	switch kind {
+	case 0:
+		own0, own1 = `one of "a", "b" but`, `one of "c", "d", "e" but`
+	case 1:
+		own0, own1 = `"^p"`, `"^q"`
+	case 2:
+		own0, own1 = "greater or equal than 3 ", "lesser or equal than 7 "
+	case 3:
+		own0, own1 = "greater or equal than 2 ", "lesser or equal than 9 "
+	default:
+		own0, own1 = "must be a integer", "must be a boolean"
+	}
+	verifAssert("message-made-of-own-arguments", has(s0.Message, own0) && has(s1.Message, own1) && !has(s0.Message, own1) && !has(s1.Message, own0))
+}
